@@ -117,6 +117,36 @@ def check_key(ctx, jwk, rep, extra, rng):
         ctx.sample({**case, "thumbprint": ref.thumbprint()})
 
 
+def caller_dict_reused(ctx, rng):
+    """a JWK dict used as a template: import, change the material in the same dict, import again - each key keeps its own thumbprint and kid"""
+    j = J.load()
+    for kind in ("oct:256", "EC:P-256", "OKP:Ed25519", "RSA:2048"):
+        ctx.ev()
+        a, b = K.new_jwk(kind), K.new_jwk(kind)
+        if kind.startswith("RSA") and a["n"] == b["n"]:
+            b = gen.new_rsa(2048, pool=5)
+        tmpl = dict(a)
+        k1 = call(j.JWKRegistry.import_key, tmpl)
+        if not k1.ok:
+            continue
+        t1 = RefKey.from_jwk(a).thumbprint()
+        tmpl.update(b)                      # the caller fills the same dict with the next key
+        k2 = call(j.JWKRegistry.import_key, tmpl)
+        tmpl.clear()
+        ctx.count("template_reuse")
+        ctx.nontrivial(("template", kind, t1))
+        got1 = call(k1.value.thumbprint)
+        call(k1.value.ensure_kid)
+        if not got1.ok or got1.value != t1 or k1.value.kid != t1:
+            ctx.violation("thumbprint-follows-callers-dict", f"{kind}: after the caller reused the dict it had imported from, the first key's thumbprint / kid is "
+                          f"{got1.value if got1.ok else got1!r} / {k1.value.kid!r}, its material gives {t1!r}", {"kind": kind})
+        if k2.ok:
+            t2 = RefKey.from_jwk(b).thumbprint()
+            got2 = call(k2.value.thumbprint)
+            if not got2.ok or got2.value != t2:
+                ctx.violation("thumbprint-follows-callers-dict", f"{kind}: second key from the reused dict has thumbprint {got2.value if got2.ok else got2!r}, expected {t2!r}", {"kind": kind})
+
+
 def native_to_jwk(jwk, n):
     from refjose.prim import int_b64, b64u_enc
     from refjose.keys import EC_SIZES
@@ -147,6 +177,41 @@ def auto_kid_generation(ctx):
             if key.kid != want:
                 ctx.violation("auto-kid-not-thumbprint" if want != "given" else "explicit-kid-overwritten",
                               f"generate_key(auto_kid=True, parameters={params}) gave kid {key.kid!r}, expected {want!r}", {"cls": cls.__name__, "arg": arg})
+    # one parameters dict shared by several generated keys: every key still gets a kid of its own (its thumbprint), the dict stays as it was
+    for cls, arg in ((j.OctKey, 256), (j.ECKey, "P-256"), (j.OKPKey, "Ed25519")):
+        for shared in ({"use": "sig"}, {}):
+            before = dict(shared)
+            keys = [call(cls.generate_key, arg, shared, True, True) for _ in range(3)]
+            if not all(k.ok for k in keys):
+                continue
+            ctx.ev()
+            ctx.count("auto_kid_generated")
+            keys = [k.value for k in keys]
+            ks2 = call(j.KeySet, keys)
+            for key in keys:
+                n = K.numbers_of_native(key.raw_value)
+                jw = {"kty": key.key_type, "crv": arg} if key.key_type != "oct" else {"kty": "oct"}
+                want = RefKey.from_jwk(native_to_jwk(jw, n)).thumbprint()
+                ctx.nontrivial(("gen-shared", want))
+                if key.kid != want:
+                    ctx.violation("auto-kid-not-thumbprint", f"three keys generated with one shared parameters dict: kid {key.kid!r} != the key's thumbprint {want!r}",
+                                  {"cls": cls.__name__, "arg": arg, "shared_parameters": before})
+            if shared != before:
+                ctx.violation("caller-parameters-modified", f"generate_key(auto_kid=True) changed the caller's parameters dict {before!r} -> {shared!r}",
+                              {"cls": cls.__name__, "arg": arg})
+    # very large symmetric keys: the thumbprint is still the RFC 7638 value
+    for nbytes in (65536, 65537, 70000, 200001):
+        ctx.ev()
+        raw = ctx.rng.randbytes(nbytes)
+        for how, mk in (("bytes", lambda: j.OctKey.import_key(raw)), ("jwk", lambda: j.key(gen.oct_from(raw)))):
+            k = call(mk)
+            t = call(k.value.thumbprint) if k.ok else k
+            want = RefKey.from_jwk(gen.oct_from(raw)).thumbprint()
+            ctx.count("thumbprints")
+            ctx.nontrivial(("big-oct", nbytes, how))
+            if not t.ok or t.value != want:
+                ctx.violation("thumbprint-differs-from-rfc7638", f"oct key of {nbytes} octets ({how}): thumbprint {t.value if t.ok else t!r} != RFC 7638 {want!r}",
+                              {"oct_octets": nbytes, "how": how})
     # key set over keys without kid: every key gets its thumbprint
     jwks = [K.new_jwk(kd) for kd in ("EC:P-256", "OKP:Ed25519", "oct:256", "EC:P-384")]
     keys = [j.key(x) for x in jwks]
@@ -168,6 +233,8 @@ def run_shard(ctx):
     rng = ctx.rng
     if ctx.shard == 0:
         auto_kid_generation(ctx)
+    if ctx.shard == 1:
+        caller_dict_reused(ctx, rng)
     work = []
     for kind in K.KINDS:
         for rep in K.REPS:
